@@ -7,6 +7,8 @@ import (
 	"os/exec"
 	"path/filepath"
 	"strings"
+	"sync"
+	"time"
 
 	"github.com/klev-dev/klevdb"
 
@@ -85,6 +87,7 @@ func runLockmon(cfg *RunCfg, rep *Reporter, cov *Cov) {
 	runLockXProc(cfg, rep, cov)
 	runROEmptyDir(cfg, rep, cov)
 	runBlockingOpenFails(cfg, rep, cov)
+	runROConcurrent(cfg, rep, cov)
 }
 
 func runLockSeq(cfg *RunCfg, rep *Reporter, cov *Cov, code int, seq []lockAct) {
@@ -381,6 +384,101 @@ func holdLock(args []string) int {
 	}
 	// "die" or EOF: exit without Close, the kernel drops the lock
 	return 0
+}
+
+// runROConcurrent: several read-only handles may be open at once - normally in different processes -
+// and each answers like a read-write handle would, also when their first queries run at the same
+// time on a log whose index files are missing (every handle then rebuilds them).
+func runROConcurrent(cfg *RunCfg, rep *Reporter, cov *Cov) {
+	rounds := 12
+	if cfg.Tier == "thorough" {
+		rounds = 120
+	}
+	for k := 0; k < rounds; k++ {
+		r := NewRand(cfg.Seed, 1919, int64(k))
+		icfg := allCfgs[k%4]
+		dir := filepath.Join(cfg.Scratch, fmt.Sprintf("roc%d", k))
+		o := OpenOpts{KeyIndex: icfg.Keys, TimeIdx: icfg.Times, Rollover: pick(r, []int64{1 << 20, 20000}), Create: true, NewVer: pick(r, []int{2, 2, 1})}
+		l0, err := kOpen(dir, o)
+		if err != nil {
+			continue
+		}
+		n := 3000 + r.Intn(6000)
+		msgs := make([]klevdb.Message, n)
+		for i := range msgs {
+			msgs[i] = klevdb.Message{Key: []byte(fmt.Sprintf("k%d", i%50)), Value: []byte(fmt.Sprintf("v%d", i)), Time: time.UnixMicro(baseTime + int64(i)).UTC()}
+		}
+		kPublish(l0, msgs)
+		kClose(l0)
+		removeIndexFiles(dir, nil, true)
+		o.Readonly, o.Create = true, false
+		nh := 2 + k%2
+		var hs []klevdb.Log
+		for i := 0; i < nh; i++ {
+			h, err := kOpen(dir, o)
+			if err != nil {
+				rep.Report(Violation{Property: "C19", Sig: "lockmon|ro-concurrent:open-error:" + errClass(err), What: fmt.Sprintf("read-only handle %d of %d could not be opened: %s", i+1, nh, errText(err)), Replay: map[string]any{"round": k}})
+				break
+			}
+			hs = append(hs, h)
+		}
+		offs := []int64{int64(r.Intn(n)), int64(n - 1), 0}
+		type res struct {
+			off int64
+			m   klevdb.Message
+			err error
+		}
+		out := make([][]res, len(hs))
+		var wg sync.WaitGroup
+		start := make(chan struct{})
+		for i, h := range hs {
+			wg.Add(1)
+			go func() {
+				defer wg.Done()
+				<-start
+				for _, off := range offs {
+					m, err := kGet(h, off)
+					out[i] = append(out[i], res{off, m, err})
+				}
+			}()
+		}
+		close(start)
+		wg.Wait()
+		for _, h := range hs {
+			kClose(h)
+		}
+		cov.Add("evaluations", int64(len(hs)))
+		cov.Add("ro_concurrent_handles", int64(len(hs)))
+		bad := false
+		for i := range out {
+			for _, x := range out[i] {
+				if bad {
+					break
+				}
+				switch {
+				case x.err != nil:
+					bad = true
+					rep.Report(Violation{Property: "C19", Sig: "lockmon|ro-concurrent:get-error:" + errClass(x.err), What: fmt.Sprintf("%d read-only handles on a log without index files made their first queries at the same time: Get(%d) on handle %d failed: %s", len(hs), x.off, i+1, errText(x.err)), Replay: map[string]any{"round": k, "handles": len(hs), "messages": n}})
+				case x.m.Offset != x.off || string(x.m.Value) != fmt.Sprintf("v%d", x.off):
+					bad = true
+					rep.Report(Violation{Property: "C19", Sig: "lockmon|ro-concurrent:get-wrong", What: fmt.Sprintf("%d read-only handles on a log without index files made their first queries at the same time: Get(%d) on handle %d returned offset %d value %q", len(hs), x.off, i+1, x.m.Offset, x.m.Value), Replay: map[string]any{"round": k}})
+				}
+			}
+		}
+		if !bad {
+			// what the handles left behind is a correct index: a fresh handle reads everything
+			h, err := kOpen(dir, o)
+			if err == nil {
+				got, _, f := scanLog(h, 512, n)
+				kClose(h)
+				if f != nil || len(got) != n {
+					rep.Report(Violation{Property: "C19", Sig: "lockmon|ro-concurrent:index-left-behind", What: fmt.Sprintf("after %d read-only handles rebuilt the index files at the same time a new handle reads %d of %d messages (%v)", len(hs), len(got), n, f), Replay: map[string]any{"round": k}})
+				}
+			}
+		}
+		cov.Distinct("lock", fmt.Sprintf("ro-concurrent|%s|handles=%d", icfg, len(hs)))
+		os.RemoveAll(dir)
+	}
 }
 
 // runBlockingOpenFails: the blocking constructors are Opens too - when they fail after the inner
